@@ -79,6 +79,15 @@ func checkC08(tier string) int {
 			specs = append(specs, nsqd.MicroSpec{State: "inflight", Eph: eph, MemQ: 10, Ops: tr})
 		}
 	}
+	// a delete racing whatever re-creates the object, with a backlog at rest in the disk queue
+	// whose metadata has been synced (sync-timeout passed): the new object must not be opened
+	// on what the old one has not removed yet
+	for _, ops := range [][]string{{"del_topic", "pub"}, {"del_topic", "sub3"}, {"del_topic", "create_ch2"}} {
+		specs = append(specs, nsqd.MicroSpec{State: "tpausedq", MemQ: 0, Sync: true, Ops: ops})
+	}
+	for _, ops := range [][]string{{"del_ch", "sub3"}, {"del_ch", "pub"}, {"del_topic", "pub"}, {"del_topic", "sub3"}} {
+		specs = append(specs, nsqd.MicroSpec{State: "queued", MemQ: 0, Sync: true, Ops: ops})
+	}
 	runMicros(rep, specs, secs, false)
 	// E2 over the same scenarios, completed for every one of them: the default schedule plus
 	// every schedule with one deviation, placed at any decision point (what the budgeted E1
@@ -213,6 +222,10 @@ func runCaseMore(kind string, spec json.RawMessage) vx.Out {
 		return o
 	}
 	switch kind {
+	case "rdyrange":
+		var a nsqd.RdySpec
+		json.Unmarshal(spec, &a)
+		return runBody(func() vx.Out { return nsqd.RunRdyRange(a) })
 	case "genwait":
 		var a struct {
 			Node int64 `json:"node"`
